@@ -12,6 +12,7 @@ EXPLANATION = ("C02: exhaustive check of the aio provider protocol (result of nn
                "before finishing, no double finish on a path, no inline completion under a lock, stop/fini wait "
                "for the task) over all providers of the build. Necessary conditions for exactly-once completion."
                " Also: the expiry scan accounts for every entry it walks past (E1), and whoever takes the head off a head-gated request queue starts the next transfer (S3).")
+EXPLANATION += ' Round 3: the absolute-expiry flag is updated together with the timeout / deadline it qualifies (T1).'
 ASSUMPTIONS = ["interleaving-level behaviour of the expire thread and of user code is not decided"]
 
 
